@@ -67,6 +67,9 @@ type op struct {
 	WS   uint64  `json:"ws,omitempty"`
 	ID   uint64  `json:"id,omitempty"`
 	Kind string  `json:"kind,omitempty"` // rawdel: record kind (singletons: the id is looked up)
+	// Node 2: the op (build, plog, apply, wlog, reread) is done by the second node - another app-structs instance
+	// with its own caches on the same backend.  Its writes are KForeign steps of the trace.
+	Node int `json:"node,omitempty"`
 	// filled by the run
 	Obs *stepObs `json:"observed,omitempty"`
 }
@@ -82,6 +85,7 @@ type slotObs struct {
 	Key    string `json:"key"`
 	Kind   string `json:"kind,omitempty"`
 	Stale  bool   `json:"update_from_created_object,omitempty"`
+	Foreign bool  `json:"written_by_other_node,omitempty"`
 	New    bool   `json:"new"`
 	Load   bool   `json:"load,omitempty"`
 	Val    string `json:"val"` // "id/stamp sha" of the bytes the op tried to write
@@ -101,6 +105,7 @@ type stepObs struct {
 
 type liveEvent struct {
 	spec   *evSpec
+	node   int // 2: built / stored by the second node
 	unbuilt string // non-empty: BuildRawEvent refused the event (e.g. singleton exists); its ops are skipped
 	raw    istructs.IRawEvent
 	berr   error
@@ -128,6 +133,7 @@ type item struct {
 	ev      *liveEvent // for record rows
 	id      uint64
 	kind    *kindDef // nil for log rows
+	foreign bool     // another writer has written this slot underneath the node's caches
 	stale   bool     // update built from a record object whose isNew flag is set
 	pofs    uint64   // log rows: the PLog offset of the event itself
 }
@@ -142,6 +148,10 @@ type runner struct {
 	steps  []string
 	tags   map[string]bool
 	shape  strings.Builder
+	// guarded writes that were refused, by slot and stamp of what they tried to write (observation P-A)
+	refused map[string]bool
+	// slots another writer (node 2) has written underneath the first node's caches
+	staleKeys map[string]bool
 }
 
 func (r *runner) intern(b []byte, stamp int64) uint64 {
@@ -339,9 +349,11 @@ func (r *runner) step(o *op, kind string, corrupted bool, items []*item, call fu
 		if it.kind != nil {
 			kcode, kname = it.kind.Code, it.kind.Name
 		}
-		slots[i] = fmt.Sprintf("mkSlot (mkItem %s %s %d %s %s %s %s) %s %s", kit.Bytes(it.pk), kit.Bytes(it.cc), kcode,
-			kit.Bool(it.isNew), kit.Bool(it.stale), kit.Bool(it.load), v, r.obsTerm(it.before), r.obsTerm(after))
-		so.Slots = append(so.Slots, slotObs{Key: fmt.Sprintf("%x/%x", it.pk, it.cc), Kind: kname, Stale: it.stale, New: it.isNew, Load: it.load, Val: vd,
+		foreign := r.staleKeys[string(it.pk)+"/"+string(it.cc)]
+		slots[i] = fmt.Sprintf("mkSlot (mkItem %s %s %d %s %s %s %s) %s %s %s", kit.Bytes(it.pk), kit.Bytes(it.cc), kcode,
+			kit.Bool(it.isNew), kit.Bool(it.stale), kit.Bool(it.load), v, kit.Bool(foreign), r.obsTerm(it.before), r.obsTerm(after))
+		it.foreign = foreign
+		so.Slots = append(so.Slots, slotObs{Key: fmt.Sprintf("%x/%x", it.pk, it.cc), Kind: kname, Stale: it.stale, Foreign: foreign, New: it.isNew, Load: it.load, Val: vd,
 			Before: r.obsDesc(it.before), After: r.obsDesc(after)})
 		r.tagSlot(kind, corrupted, it, it.before, after, res)
 	}
@@ -360,6 +372,77 @@ func (r *runner) step(o *op, kind string, corrupted bool, items []*item, call fu
 	return nil
 }
 
+// foreignStep: the second node performs a write; the rows it stored become a KForeign step of the trace and the
+// slots are marked: from now on the first node's views of them (through its istoragecache, its PLog cache) may
+// be out of date, only the raw bytes of the shared storage are compared.  The observation taken before the
+// write goes through the first node's cache: the node has read the slot (while it was empty, in the cells).
+func (r *runner) foreignStep(o *op, items []*item, call func() error) error {
+	for _, it := range items {
+		b, err := r.observe(it)
+		if err != nil {
+			return err
+		}
+		it.before = b
+	}
+	var cerr error
+	var panicked any
+	calls := r.rig.record2(func() {
+		defer func() { panicked = recover() }()
+		cerr = call()
+	})
+	res, emsg := resClass(cerr, panicked)
+	var written []*item
+	take := func(pk, cc, v []byte) {
+		for _, it := range items {
+			if it.val == nil && bytes.Equal(it.pk, pk) && bytes.Equal(it.cc, cc) {
+				it.val = append([]byte{}, v...)
+				written = append(written, it)
+				return
+			}
+		}
+	}
+	so := &stepObs{Kind: "KForeign", Result: res, Error: emsg}
+	for _, c := range calls {
+		switch c.Op {
+		case "Put":
+			take(c.PKey, c.CCols, c.Value)
+		case "InsertIfNotExists":
+			if c.Ok {
+				take(c.PKey, c.CCols, c.Value)
+			}
+		case "PutBatch":
+			for _, bi := range c.Items {
+				take(bi.PKey, bi.CCols, bi.Value)
+			}
+		}
+		so.Calls = append(so.Calls, fmt.Sprintf("node2 %s %x/%x ok=%v", c.Op, c.PKey, c.CCols, c.Ok))
+	}
+	o.Obs = so
+	if len(written) == 0 {
+		return nil
+	}
+	slots := make([]string, len(written))
+	for i, it := range written {
+		r.staleKeys[string(it.pk)+"/"+string(it.cc)] = true
+		after, err := r.observe(it)
+		if err != nil {
+			return err
+		}
+		kcode, kname := uint64(0), ""
+		if it.kind != nil {
+			kcode, kname = it.kind.Code, it.kind.Name
+		}
+		slots[i] = fmt.Sprintf("mkSlot (mkItem %s %s %d %s false false %s) true %s %s", kit.Bytes(it.pk), kit.Bytes(it.cc), kcode,
+			kit.Bool(it.isNew), r.val(it.val, it.stamp), r.obsTerm(it.before), r.obsTerm(after))
+		so.Slots = append(so.Slots, slotObs{Key: fmt.Sprintf("%x/%x", it.pk, it.cc), Kind: kname, Foreign: true, New: it.isNew,
+			Val: fmt.Sprintf("#%d stamp=%d", r.intern(it.val, it.stamp), it.stamp), Before: r.obsDesc(it.before), After: r.obsDesc(after)})
+	}
+	r.tags["foreign-writer"] = true
+	r.steps = append(r.steps, fmt.Sprintf("mkStep KForeign false %s ROk []", kit.List(slots)))
+	fmt.Fprintf(&r.shape, "|KForeign:%d", len(written))
+	return nil
+}
+
 // tagSlot: matrix cell of this row (computed from what was observed) for the evidence histogram
 func (r *runner) tagSlot(kind string, corrupted bool, it *item, before, after obs, res string) {
 	op := map[string]string{"KPlog": "plog", "KWlog": "wlog", "KReapplyWlog": "reapply", "KReapplyRecs": "reapply", "KRawDel": "rawdel"}[kind]
@@ -373,9 +456,9 @@ func (r *runner) tagSlot(kind string, corrupted bool, it *item, before, after ob
 		return
 	}
 	state := "empty"
-	if before.topOk {
+	if before.botOk {
 		state = "different"
-		if it.val != nil && bytes.Equal(before.top, it.val) {
+		if it.val != nil && bytes.Equal(before.bot, it.val) {
 			state = "identical"
 		} else if it.val == nil {
 			state = "occupied"
@@ -388,22 +471,34 @@ func (r *runner) tagSlot(kind string, corrupted bool, it *item, before, after ob
 	if it.kind != nil {
 		op += ":" + it.kind.Name
 	}
-	if kind == "KWlog" {
+	if kind == "KWlog" && !it.foreign {
 		op += fmt.Sprintf(":p%d", it.pofs)
+	}
+	if it.foreign && !corrupted {
+		pre = "foreign"
 	}
 	if kind == "KApply" && !it.isNew && it.stale {
 		op = "update-from-created-object"
-		if before.topOk && res == "RViolation" {
+		if before.botOk && res == "RViolation" {
 			// finding F-A, judged from the observed outcome
 			r.tags["F-A:update-built-from-created-record-object-refused"] = true
 		}
 	}
 	r.tags[fmt.Sprintf("%s:t%d:%s:%s:%s", pre, r.sc.Trust, op, state, r.sc.Backend)] = true
 	r.tags["result:"+res] = true
-	if before.topOk && res == "RViolation" && bytes.Equal(before.top, after.top) {
+	rk := fmt.Sprintf("%x/%x/%d", it.pk, it.cc, it.stamp)
+	if before.botOk && res == "RViolation" && bytes.Equal(before.bot, after.bot) {
 		r.tags["refused-intact"] = true
+		if it.val != nil {
+			r.refused[rk] = true
+		}
 	}
-	if before.topOk && it.val != nil && !bytes.Equal(before.top, after.top) {
+	if (kind == "KReapplyRecs" || kind == "KReapplyWlog") && res == "ROk" && r.refused[rk] && before.botOk && !bytes.Equal(before.bot, after.bot) {
+		// observation P-A: the write that was refused with SequencesViolation is carried out by the re-applier
+		// (by design of re-apply; the composition is the command processor's, see findings/C05/handover-C01-P-A.md)
+		r.tags["note:P-A:refused-write-carried-out-by-reapply"] = true
+	}
+	if before.botOk && it.val != nil && !bytes.Equal(before.bot, after.bot) {
 		r.tags["overwritten"] = true
 	}
 }
@@ -464,6 +559,12 @@ func (r *runner) wlogItem(sp *evSpec) *item {
 func (r *runner) build(o *op) error {
 	sp := o.Ev
 	app := r.rig.app
+	if o.Node == 2 {
+		var err error
+		if app, err = r.rig.node2(); err != nil {
+			return err
+		}
+	}
 	name := istructs.QNameCommandCUD
 	params := istructs.GenericRawEventBuilderParams{HandlingPartition: istructs.PartitionID(sp.Part), PLogOffset: istructs.Offset(sp.POfs),
 		Workspace: istructs.WSID(sp.WS), WLogOffset: istructs.Offset(sp.WOfs), QName: name, RegisteredAt: istructs.UnixMilli(sp.Stamp)}
@@ -564,7 +665,7 @@ func (r *runner) build(o *op) error {
 	if sp.Invalid && berr == nil {
 		return fmt.Errorf("build %s: the invalid event was built without an error", o.Name)
 	}
-	r.events[o.Name] = &liveEvent{spec: sp, raw: raw, berr: berr, staleUpd: stale}
+	r.events[o.Name] = &liveEvent{spec: sp, raw: raw, berr: berr, staleUpd: stale, node: o.Node}
 	return nil
 }
 
@@ -620,6 +721,19 @@ func (r *runner) runOp(o *op) error {
 		if a := ev.spec.Arg; a != nil {
 			ids[argRawID], ids[argRawID+1] = a.ID, a.LineID
 		}
+		if o.Node == 2 {
+			app2, err := r.rig.node2()
+			if err != nil {
+				return err
+			}
+			return r.foreignStep(o, []*item{r.plogItem(ev.spec)}, func() error {
+				pev, err := app2.Events().PutPlog(ev.raw, ev.berr, &scriptedIDs{ids: ids})
+				if err == nil {
+					ev.pev, ev.putGen = pev, -2
+				}
+				return err
+			})
+		}
 		return r.step(o, "KPlog", ev.spec.Corrupted, []*item{r.plogItem(ev.spec)}, func() error {
 			pev, err := r.rig.app.Events().PutPlog(ev.raw, ev.berr, &scriptedIDs{ids: ids})
 			if err == nil {
@@ -655,6 +769,13 @@ func (r *runner) runOp(o *op) error {
 		if ev.pev == nil {
 			return r.skip(o, "no PLog event (the append was refused)")
 		}
+		if o.Node == 2 {
+			app2, err := r.rig.node2()
+			if err != nil {
+				return err
+			}
+			return r.foreignStep(o, []*item{r.wlogItem(ev.spec)}, func() error { return app2.Events().PutWlog(ev.pev) })
+		}
 		return r.step(o, "KWlog", ev.spec.Corrupted, []*item{r.wlogItem(ev.spec)}, func() error { return r.rig.app.Events().PutWlog(ev.pev) })
 	case "apply":
 		ev, err := r.get(o.Name)
@@ -667,6 +788,13 @@ func (r *runner) runOp(o *op) error {
 		items, err := r.eventItems(ev)
 		if err != nil {
 			return err
+		}
+		if o.Node == 2 {
+			app2, err := r.rig.node2()
+			if err != nil {
+				return err
+			}
+			return r.foreignStep(o, items, func() error { return app2.Records().Apply(ev.pev) })
 		}
 		return r.step(o, "KApply", false, items, func() error {
 			got := map[uint64]istructs.IRecord{}
@@ -682,7 +810,13 @@ func (r *runner) runOp(o *op) error {
 			return err
 		}
 		var got istructs.IPLogEvent
-		err = r.rig.app.Events().ReadPLog(context.Background(), istructs.PartitionID(src.spec.Part), istructs.Offset(src.spec.POfs), 1,
+		rapp := r.rig.app
+		if o.Node == 2 {
+			if rapp, err = r.rig.node2(); err != nil {
+				return err
+			}
+		}
+		err = rapp.Events().ReadPLog(context.Background(), istructs.PartitionID(src.spec.Part), istructs.Offset(src.spec.POfs), 1,
 			func(_ istructs.Offset, e istructs.IPLogEvent) error { got = e; return nil })
 		if err != nil {
 			return err
@@ -774,7 +908,7 @@ func run(sc *scenario) (coq string, tags []string, key string, err error) {
 		return "", nil, "", err
 	}
 	defer rg.cleanup()
-	r := &runner{sc: sc, rig: rg, events: map[string]*liveEvent{}, ids: map[string]uint64{}, tags: map[string]bool{}}
+	r := &runner{sc: sc, rig: rg, events: map[string]*liveEvent{}, ids: map[string]uint64{}, tags: map[string]bool{}, refused: map[string]bool{}, staleKeys: map[string]bool{}}
 	for i, o := range sc.Ops {
 		if err := r.runOp(o); err != nil {
 			return "", nil, "", fmt.Errorf("scenario %q op %d (%s %s): %w", sc.Cell, i, o.Op, o.Name, err)
